@@ -1496,8 +1496,11 @@ static int cfg_parse_internal(cfg_t *cfg, int level, int force_state, cfg_opt_t 
 
 		switch (state) {
 		case 0:	/* expecting an option name */
-			if (opt && is_set(CFGF_DEPRECATED, opt->flags))
+			if (opt && is_set(CFGF_DEPRECATED, opt->flags)) {
 				cfg_handle_deprecated(cfg, opt);
+				/* once: a comment may follow before the next name */
+				opt = NULL;
+			}
 
 			switch (tok) {
 			case '}':
